@@ -173,6 +173,28 @@ def tiny_pickup_half(k):
     return {"id": None, "parts": [part], "groups": None}
 
 
+def tiny_thousand_bars(k):
+    """a boundary score: a movement of more than 999 bars (one note a bar): bar numbers of four digits, and with
+    the longer variant a file of more than 256 KiB"""
+    nm = k.choice((1003, 1010))
+    per_bar = k.choice((1, 3))
+    q = 1 if per_bar == 1 else 3
+    L = 2 * q
+    notes = []
+    for m in range(nm):
+        for i in range(per_bar):
+            d = L // per_bar
+            notes.append({"id": "p1n%d" % (len(notes) + 1), "kind": "note", "t": m * L + i * d, "e": m * L + (i + 1) * d, "voice": 1, "staff": 1, "sym": None, "m": m, "g": None, "step": "CDEFGAB"[(m + i) % 7], "alter": None, "octave": 4})
+    part = {
+        "id": "P1", "name": "Part P1", "abbr": None, "qdivs": [[0, q]], "nstaves": 1, "end": nm * L,
+        "measures": [{"s": m * L, "e": (m + 1) * L, "number": m + 1, "name": str(m + 1)} for m in range(nm)],
+        "timesigs": [{"t": 0, "beats": 2, "beat_type": 4}], "keysigs": [{"t": 0, "fifths": 0, "mode": "major"}],
+        "clefs": [{"t": 0, "staff": 1, "sign": "G", "line": 2, "oct": 0}],
+        "notes": notes, "slurs": [], "tuplets": [], "dirs": [], "tempos": [], "repeats": [], "endings": [], "nav": [], "fermatas": [],
+    }
+    return {"id": None, "parts": [part], "groups": None}
+
+
 def generate(seed, tier, cfg):
     st = R.Streams(seed)
     k, o, f = st.knobs, st.ops, st.faults
@@ -186,6 +208,8 @@ def generate(seed, tier, cfg):
         asc = tiny_hemiola(k)
     elif x < 0.13:
         asc = tiny_pickup_half(k)
+    elif x < 0.142:
+        asc = tiny_thousand_bars(k)
     # the format stores no measure lengths: what follows the last score note cannot be known, so the
     # final measure must hold a pitched note that ends with it (precondition "complete final measure")
     ap = asc["parts"][0]
